@@ -22,9 +22,11 @@ from concurrent.futures import ThreadPoolExecutor
 
 from ..core import ToolError
 
-INVS = ["Inv_StoredOnlyIfHashMatches", "Inv_ProvenRootsAreTrue", "Inv_NoPanic", "Inv_Progressable",
-        "UnsolicitedIgnored", "GoodAnswersVerify"]
-WITNESSES = ["W_Stored", "W_StoredAfterHostileHit", "W_TwinHit", "W_AllOutstandingAnswered"]
+INVS = ["Inv_StoredOnlyIfHashMatches", "Inv_ProvenRootsAreTrue", "Inv_NoPanic", "Inv_Progressable"]
+# action properties (checked by TLC on every transition; act/exp are outside the VIEW)
+PROPS = ["NoCorruption", "UnsolicitedIgnored", "GoodAnswersVerify", "InvalidChangesNothing"]
+CHECKS = ["INVARIANTS", "  " + " ".join(INVS), "PROPERTIES", "  " + " ".join(PROPS)]
+WITNESSES = ["W_Stored", "W_StoredAfterHostileHit", "W_AllOutstandingAnswered"]
 # every hostile kind must have hit an outstanding request of every type it applies to, in the replay
 NEED_LABELS = ["start", "timeout", "good:lsr", "good:sr", "good:sh",
                "hostile:valid:lsr->lsr:hit", "hostile:valid:sr->sr:hit", "hostile:valid:sh->sh:hit",
@@ -73,14 +75,19 @@ def shape_run(ctx, shape):
 
     # ---- (check) the property on the spec, finite DAG, terminal states by deadlock checking
     ctx.tlc(f"check_{tag}", "MC_Repair",
-            cfg(ns, ng, thr, deadlock=True, lines=["INVARIANTS", "  " + " ".join(INVS), "PROPERTY NoCorruption"], **bud),
+            cfg(ns, ng, thr, deadlock=True, lines=CHECKS, **bud),
             workers=w, timeout=1500)
     if shape.get("witness"):
         ctx.witness(f"w_{tag}", "MC_Repair", cfg(ns, ng, thr, **bud), "", WITNESSES, workers=w)
         # the pinned code's deviations, transcribed, break the property in the model
+        r = ctx.tlc(f"w_{tag}_W_TwinHit", "MC_Repair", cfg(ns, ng, thr, lines=["PROPERTY W_TwinHit"], **bud),
+                    workers=w, timeout=600, expect_violation="W_TwinHit")
+        if r.violated != "W_TwinHit":
+            raise ToolError(f"vacuity: witness W_TwinHit not reachable in {tag} ({r.error or r.violated})")
         for name, lines, dl in (("Inv_NoPanic", ["INVARIANT Inv_NoPanic"], False),
                                 ("Inv_StoredOnlyIfHashMatches", ["INVARIANT Inv_StoredOnlyIfHashMatches"], False),
                                 ("Inv_Progressable", ["INVARIANT Inv_Progressable"], False),
+                                ("InvalidChangesNothing", ["PROPERTY InvalidChangesNothing"], False),
                                 ("deadlock", [], True)):
             r = ctx.tlc(f"ascoded_{tag}_{name}", "MC_Repair",
                         cfg(ns, ng, thr, ascoded=True, deadlock=dl, lines=lines, **bud), workers=w,
@@ -93,16 +100,20 @@ def shape_run(ctx, shape):
     # ---- (graph) every transition, replayed into the real objects
     r = ctx.tlc(f"graph_{tag}", "MC_Repair",
                 cfg(ns, ng, thr, max_again=shape["again"],
-                    lines=["ACTION_CONSTRAINT EmitEdge", "INVARIANT EmitState", "INVARIANTS", "  " + " ".join(INVS),
-                           "PROPERTY NoCorruption"]),
+                    lines=["ACTION_CONSTRAINT EmitEdge", "INVARIANT EmitState"] + CHECKS),
                 workers=w, timeout=1500)
-    rep = ctx.harness(["replay-repair", "--ns", ns, "--ng", ng, "--tlc-out", r.out_path, "--seed", ctx.seed])
+    args = ["replay-repair", "--ns", ns, "--ng", ng, "--tlc-out", r.out_path, "--seed", ctx.seed]
+    if shape.get("sample"):
+        args += ["--sample", shape["sample"]]
+        ctx.exhaustive = False
+    rep = ctx.harness(args)
     model = f"repair-{tag}"
     rep["model"] = model
     if rep["nodes"] != r.distinct:
         raise ToolError(f"{model}: dump has {rep['nodes']} states, TLC found {r.distinct}")
-    if rep["covered"] != rep["edges"] or rep["edges"] < r.distinct:
-        raise ToolError(f"{model}: {rep['covered']} of {rep['edges']} transitions replayed")
+    want = min(rep["edges"], shape.get("sample") or rep["edges"])
+    if rep["covered"] < want or rep["edges"] < r.distinct:
+        raise ToolError(f"{model}: {rep['covered']} of {want} transitions replayed ({rep['edges']} dumped)")
     if shape.get("witness"):
         missing = [x for x in NEED_LABELS if x not in rep["act_hist"]]
         if missing:
@@ -163,16 +174,17 @@ def run(ctx):
         shapes = [
             dict(ns=1, ng=2, thr=1, again=1, hostile=3, timeouts=2, witness=False, scen_len=2, scen_limit=150),
             dict(ns=2, ng=2, thr=1, again=1, hostile=3, timeouts=2, witness=True, scen_len=2, scen_limit=400),
-            dict(ns=2, ng=4, thr=2, again=0, hostile=2, timeouts=1, witness=False),
+            dict(ns=2, ng=4, thr=2, again=0, hostile=2, timeouts=1, witness=False, sample=7000),
         ]
         par = 3
     else:
         shapes = [
-            dict(ns=1, ng=2, thr=1, again=1, hostile=5, timeouts=3, witness=False, scen_len=2),
-            dict(ns=2, ng=2, thr=1, again=1, hostile=4, timeouts=2, witness=True, scen_len=2),
-            dict(ns=2, ng=4, thr=2, again=1, hostile=3, timeouts=2, witness=False, scen_len=1),
+            dict(ns=3, ng=4, thr=2, again=0, hostile=2, timeouts=1, witness=False, sample=100000),
+            dict(ns=2, ng=4, thr=2, again=1, hostile=3, timeouts=2, witness=False, sample=100000, scen_len=1),
             dict(ns=3, ng=2, thr=1, again=1, hostile=3, timeouts=2, witness=False, scen_len=2, scen_limit=6000),
-            dict(ns=3, ng=4, thr=2, again=0, hostile=2, timeouts=1, witness=False),
+            dict(ns=2, ng=4, thr=2, again=0, hostile=3, timeouts=2, witness=False),
+            dict(ns=2, ng=2, thr=1, again=1, hostile=5, timeouts=3, witness=True, scen_len=2),
+            dict(ns=1, ng=2, thr=1, again=1, hostile=6, timeouts=3, witness=False, scen_len=2),
         ]
         par = 3
     with ThreadPoolExecutor(max_workers=par) as ex:
